@@ -53,3 +53,32 @@ def prep_optimizer(inp, out):
                 f.write(json.dumps({k: v for k, v in e.items() if k not in ("seq", "tid")}) + "\n")
                 n += 1
     return n
+
+
+RUNNER_EVENTS = ("r_new", "r_run", "r_get", "r_set", "r_op", "r_fail", "r_inputs", "r_ext", "r_end")
+
+
+def prep_runner(inp, out, max_events=60000):
+    """runner events grouped per runner instance (rid), instances one after the other, each starting with r_new."""
+    per = collections.OrderedDict()
+    for line in open(inp):
+        try:
+            d = json.loads(line)
+        except Exception:
+            continue
+        if d.get("ev") in RUNNER_EVENTS:
+            per.setdefault(d["rid"], []).append(d)
+    n = inst = 0
+    outcomes = collections.Counter()
+    with open(out, "w") as f:
+        for rid, evs in per.items():
+            if not evs or evs[0]["ev"] != "r_new" or n + len(evs) > max_events:
+                continue
+            evs.sort(key=lambda e: e["seq"])
+            inst += 1
+            for e in evs:
+                if e["ev"] == "r_end":
+                    outcomes[e["res"]] += 1
+                f.write(json.dumps({k: v for k, v in e.items() if k not in ("seq", "tid", "rid")}) + "\n")
+                n += 1
+    return {"events": n, "instances": inst, "outcomes": dict(outcomes)}
